@@ -22,6 +22,21 @@ CLAIMED = {
     ),
 }
 
+CLAIMED["C10"] = dict(
+    level="proof",
+    text="The out-of-range clause is proved over the full double domain (loop-free harnesses on the real range "
+         "tests of vnacal_new_add_*/set_frequency_vector, vnacal_new_set_m_error, vnacal_get_parameter_value and "
+         "the bound functions used by apply): a >=5% miss at either end is refused, full coverage is accepted. "
+         "The segment search of _vnacal_rfi is closed by DFCC loop contracts for any number of iterations "
+         "(bracketing postcondition, termination). Exactness at the knots is proved for the spline evaluator "
+         "(any coefficients) and for _vnacal_rfi with up to 4 knots and any hint: bounded in the number of "
+         "knots. Interpolated values between knots are floating point and not examined.",
+    note="values between knots not covered; spline slope value (one double division) not examined; knots >= 1 mHz "
+         "apart; the apply comparison is restated in the harness; complex compiled as double",
+    design="DESIGN.md 3 C10, 8.2",
+    technique="CBMC full-domain float contracts + DFCC loop contracts (_vnacal_rfi) + bounded knot harnesses",
+)
+
 NA = {
     "C02": "iterative floating-point convergence (Levenberg-Marquardt / TRL) has no contract CBMC can discharge; see DESIGN.md 3 C02",
     "C06": "property is about bytes written by fprintf and read by an independent reader; no CBMC model of formatted I/O (a stub would be the oracle); DESIGN.md 3 C06",
